@@ -83,7 +83,8 @@ theorem compressFn_exact (k : CompKind) (p out : Name) (hne : out ≠ p) (f1 : F
       (fun _ w => ∃ e, f1.get p = some e ∧ w.fs.get out = some (.arch (innerOf k p) e.content) ∧
         ∀ n, n ≠ out → w.fs.get n = f1.get n)
       (fun w => ∀ n, n ≠ out → w.fs.get n = f1.get n) := by
-  unfold compressFn
+  rw [compressFn_eq]
+  unfold compressFnHand
   have hpo : p ≠ out := fun h => hne h.symm
   refine Triple.seq (Triple.conseq (openSrc_spec (insens_fs (· = f1)) k p) (fun _ h => h) (fun _ _ h => h)
     (fun w h n _ => by rw [h])) ?_
@@ -206,7 +207,8 @@ theorem remove_nf (f0 : List Bool) (n : Name) : Triple (NF f0) (remove n) (fun _
 
 theorem compressFn_nf (f0 : List Bool) (k : CompKind) (p out : Name) :
     Triple (NF f0) (compressFn k p out) (fun _ => NF f0) (fun _ => True) := by
-  unfold compressFn
+  rw [compressFn_eq]
+  unfold compressFnHand
   refine Triple.seq ?_ (Triple.seq (tick_nf f0 _) (Triple.seq (modW_nf f0 _ (fun _ => rfl))
     (Triple.seq (tick_nf f0 _) (Triple.bindGet (fun w0 => Triple.pre ?_ (fun w h => h.2))))))
   · unfold openSrc
